@@ -423,3 +423,62 @@ result = {'program': text, 'structured_meaning': 'the loop body runs once and th
 ParseScriptBody.native_witness = {'C01.while.continue-retests-condition': WHILE_CONTINUE_WITNESS}
 PARSE_SCRIPT_BODY = ParseScriptBody()
 PARSE_SCRIPT_BODY.callee_contracts = {PARSE_EXPRESSION.qual: PARSE_EXPRESSION}
+
+
+# -- native witness programs (bounded stand-ins; consulted when an obligation is undecided or the function is out of reach)
+_PW = """
+from bare_script import parse_script, execute_script
+from bare_script.parser import BareScriptParserError
+from bare_script.runtime import BareScriptRuntimeError
+bad = []
+def run(text, expect, what):
+    try:
+        got = execute_script(parse_script(text), {'globals': {}, 'maxStatements': 100000})
+    except Exception as exc:
+        got = 'EXC ' + type(exc).__name__ + ': ' + str(exc)[:80]
+    if got != expect:
+        bad.append({'program': text, 'expected': repr(expect), 'observed': repr(got), 'what': what})
+"""
+
+LOWERING_WITNESS = _PW + """
+run('out = arrayNew()\\nfor aa in arrayNew(1, 2, 3):\\n    for bb in arrayNew(10, 20, 30):\\n        if bb == 20:\\n            break\\n        endif\\n        arrayPush(out, aa + bb)\\n    endfor\\n    arrayPush(out, aa)\\nendfor\\nreturn out\\n',
+    [11.0, 1.0, 12.0, 2.0, 13.0, 3.0], 'break binds to the innermost loop')
+run('out = arrayNew()\\nfor aa in arrayNew(1, 2):\\n    for bb in arrayNew(10, 20, 30):\\n        if bb == 20:\\n            continue\\n        endif\\n        arrayPush(out, aa + bb)\\n    endfor\\nendfor\\nreturn out\\n',
+    [11.0, 31.0, 12.0, 32.0], 'continue binds to the innermost loop')
+run('function fn():\\n    out = arrayNew()\\n    ii = 0\\n    while ii < 3:\\n        ii = ii + 1\\n        for bb in arrayNew(1, 2):\\n            if bb == 2:\\n                break\\n            endif\\n            arrayPush(out, ii * 10 + bb)\\n        endfor\\n    endwhile\\n    return out\\nendfunction\\nreturn fn()\\n',
+    [11.0, 21.0, 31.0], 'for nested in while inside a function')
+run('xx = 3\\nif xx == 1:\\n    rr = 1\\nelif xx == 2:\\n    rr = 2\\nelif xx == 3:\\n    rr = 3\\nelse:\\n    rr = 4\\nendif\\nreturn rr\\n', 3.0, 'if chain runs the first true branch')
+run('xx = 9\\nif xx == 1:\\n    rr = 1\\nelif xx == 2:\\n    rr = 2\\nelse:\\n    rr = 4\\nendif\\nreturn rr\\n', 4.0, 'else branch')
+run('xx = 9\\nrr = 0\\nif xx == 1:\\n    rr = 1\\nelif xx == 2:\\n    rr = 2\\nendif\\nreturn rr\\n', 0.0, 'if chain without else')
+run('nn = 0\\ncc = objectNew()\\nwhile cc:\\n    nn = nn + 1\\n    if nn == 3:\\n        break\\n    endif\\nendwhile\\nreturn nn\\n', 3.0, 'loop condition re-tested with BareScript truthiness')
+run('out = arrayNew()\\nfor vv, ix in arrayNew(5, 6):\\n    arrayPush(out, ix)\\n    arrayPush(out, vv)\\nendfor\\nreturn out\\n', [0, 5.0, 1.0, 6.0], 'for with index')
+run('nn = 0\\nfor vv in arrayNew():\\n    nn = nn + 1\\nendfor\\nreturn nn\\n', 0.0, 'for over an empty array')
+result = {'violates': bool(bad), 'counterexamples': bad[:2]}
+"""
+
+ERROR_WITNESS = _PW + """
+cases = [('xx = 1\\nif (1 + :\\nendif', 2, 'if (1 + :'), ('if 1:\\nelif 1 + :\\nendif', 2, 'elif 1 + :'), ('  while 1 +:\\nendwhile', 1, '  while 1 +:'),
+         ('aa = 1\\nfor xx in arrayNew(1, 2) $:\\nendfor', 2, 'for xx in arrayNew(1, 2) $:'), ('aa = 1 + \\\\', 1, None), ('aa = 1\\n\\\\', 2, None),
+         ('function fn():\\n  aa = 1', 1, 'function fn():'), ('if 1:\\n  aa = 1', 1, 'if 1:'), ('aa = 1\\nreturn 1 +', 2, 'return 1 +'),
+         ('aa = 1\\njumpif (1 +) lbl', 2, 'jumpif (1 +) lbl'), ('aa = (1', 1, 'aa = (1'), ('endif', 1, 'endif'), ('foo(1,)', 1, 'foo(1,)'), ('foo(,)', 1, 'foo(,)')]
+for text, line_number, line in cases:
+    try:
+        parse_script(text)
+        bad.append({'text': text, 'observed': 'accepted', 'expected': 'BareScriptParserError'})
+    except BareScriptParserError as exc:
+        ok = exc.line_number == line_number and (line is None or exc.line == line) and 1 <= exc.column_number <= len(exc.line) + 1
+        if ok and line is not None and '$' in line:
+            ok = abs(exc.column_number - (line.index('$') + 1)) <= 1
+        if ok and line is not None and line.endswith('+ :'):
+            ok = exc.column_number >= line.index('+') + 1
+        if not ok:
+            bad.append({'text': text, 'observed': [exc.error, exc.line_number, exc.column_number, exc.line], 'expected': [line_number, line]})
+    except Exception as exc:
+        bad.append({'text': text, 'observed': type(exc).__name__ + ': ' + str(exc)[:80], 'expected': 'BareScriptParserError'})
+result = {'violates': bool(bad), 'counterexamples': bad[:2]}
+"""
+
+ParseScriptBody.native_witness = {'C01.while.continue-retests-condition': WHILE_CONTINUE_WITNESS,
+                                  'C01.lowering': LOWERING_WITNESS, 'binds-to-the-innermost-loop': LOWERING_WITNESS,
+                                  'C06.': ERROR_WITNESS}
+ParseScriptBody.fallback_skip = ('C01.while.continue-retests-condition',)     # a recorded known finding
